@@ -728,30 +728,46 @@ func allReturnsCarry(fn *ssa.Function, b *ssa.BasicBlock, ev map[ssa.Value]bool)
 }
 
 func c05gen(w *World, r *Report, isPersist func(*Site) bool) {
-	cg := w.CG()
+	_ = w.CG()
 	ig := w.Func("x/cfevesting.InitGenesis")
 	vg := w.Func("x/cfevesting.ValidateAccountsOnGenesis")
 	if ig == nil || vg == nil {
 		r.Unk("infra.anchor", "x/cfevesting.InitGenesis / ValidateAccountsOnGenesis", "", "anchor not found")
 		return
 	}
-	var vcall *Site
-	for _, s := range cg.Sites[ig] {
-		if calleeIs(s, "x/cfevesting.ValidateAccountsOnGenesis") {
-			vcall = s
-		}
+	// the validation call and the pool persists are looked for in InitGenesis and in the helpers it calls
+	var vcall *EffSite
+	for _, e := range w.effectsBelow(ig, func(s *Site) bool { return calleeIs(s, "x/cfevesting.ValidateAccountsOnGenesis") }, 2) {
+		e := e
+		vcall = &e
 	}
 	if vcall == nil {
 		r.Bad("C05.gen", "InitGenesis calls ValidateAccountsOnGenesis", w.Pos(ig.Pos()), "the solvency validation is not called")
 		return
 	}
 	n := 0
-	for _, s := range cg.Sites[ig] {
-		if !isPersist(s) {
-			continue
-		}
+	for _, e := range w.effectsBelow(ig, isPersist, 2) {
 		n++
-		r.Check(OnSuccessEdge(ig, s.Instr, siteValue(vcall)), "C05.gen", "InitGenesis: pools persisted only after the solvency validation succeeded", w.Pos(s.Instr.Pos()),
+		ok := false
+		// decided in the function that holds the validation call: the persist (or the call leading to it) lies on the
+		// success edge of the validation
+		vf := vcall.Site.Caller
+		var at ssa.Instruction
+		if e.Site.Caller == vf {
+			at = e.Site.Instr
+		} else {
+			for _, c := range e.Chain {
+				if c.Caller == vf {
+					at = c.Instr
+				}
+			}
+		}
+		if at != nil {
+			ok = OnSuccessEdge(vf, at, siteValue(vcall.Site))
+		}
+		// the validation itself is reached unconditionally from InitGenesis: its chain calls dominate the persist's
+		ok = ok && effDominates(*vcall, e)
+		r.Check(ok, "C05.gen", "InitGenesis: pools persisted only after the solvency validation succeeded", w.Pos(e.Site.Instr.Pos()),
 			"dominated by the nil edge of ValidateAccountsOnGenesis (the other edge panics)", "pools are stored although the validation may have failed")
 	}
 	if n == 0 {
